@@ -80,7 +80,23 @@ fn resolves(d: &serde_json::Value, loc: &str) -> bool {
   if !loc.starts_with('/') {
     return false;
   }
-  d.pointer(loc).is_some()
+  // the crate writes keys raw into the path (no ~0 / ~1 escaping), so a key may itself contain '/': a path resolves if
+  // SOME split of it into existing keys / indexes walks down the document
+  fn walk(d: &serde_json::Value, rest: &str) -> bool {
+    if rest.is_empty() {
+      return true;
+    }
+    let Some(rest) = rest.strip_prefix('/') else { return false };
+    match d {
+      serde_json::Value::Object(o) => o.iter().any(|(k, v)| rest.strip_prefix(k.as_str()).is_some_and(|r| (r.is_empty() || r.starts_with('/')) && walk(v, r))),
+      serde_json::Value::Array(a) => {
+        let seg = rest.split('/').next().unwrap_or("");
+        seg.parse::<usize>().ok().and_then(|i| a.get(i)).is_some_and(|v| walk(v, &rest[seg.len()..]))
+      }
+      _ => false,
+    }
+  }
+  walk(d, loc)
 }
 
 #[derive(Default)]
@@ -318,6 +334,57 @@ fn struct_docs() -> Vec<RV> {
     }
   }
   out
+}
+
+fn slash_family() -> (Vec<Ty>, Vec<RV>) {
+  let kv = |occ: Occ, k: &str, t: Ty| Entry { occ, kind: EK::Val(Some(Key::Arrow(t1(text(k)), false)), t) };
+  let inner_map = |k: &str, t: T2| T2::Map(Grp(vec![vec![Entry { occ: Occ::One, kind: EK::Val(Some(Key::Arrow(t1(text(k)), false)), ty1(t)) }]]));
+  let arr = |t: T2| T2::Arr(Grp(vec![vec![ent(Occ::Star, ty1(t))]]));
+  let ms = vec![
+    kv(Occ::One, "a/b", ty1(name("int"))),
+    kv(Occ::One, "a/b", ty1(inner_map("c", name("int")))),
+    kv(Occ::One, "a/b", ty1(inner_map("a/b", name("tstr")))),
+    kv(Occ::Opt, "x/y/z", ty1(arr(name("int")))),
+    kv(Occ::One, "c", ty1(name("int"))),
+    kv(Occ::Opt, "c", ty1(inner_map("a/b", name("int")))),
+    kv(Occ::One, "/", ty1(name("tstr"))),
+    Entry { occ: Occ::Star, kind: EK::Val(Some(Key::Arrow(t1(name("tstr")), false)), ty1(name("int"))) },
+  ];
+  let mut tys = vec![];
+  for a in &ms {
+    tys.push(ty1(T2::Map(Grp(vec![vec![a.clone()]]))));
+    for b in &ms {
+      tys.push(ty1(T2::Map(Grp(vec![vec![a.clone(), b.clone()]]))));
+      tys.push(ty1(T2::Arr(Grp(vec![vec![ent(Occ::Star, ty1(T2::Map(Grp(vec![vec![a.clone(), b.clone()]]))))]]))));
+    }
+  }
+  let vals: Vec<RV> = vec![i(1), t("x"), RV::Map(vec![(t("c"), i(1))]), RV::Map(vec![(t("a/b"), i(1))]), RV::Map(vec![(t("a/b"), t("x"))]), RV::Array(vec![i(1), t("x")])];
+  let keys = ["a/b", "x/y/z", "c", "/"];
+  let n = vals.len() + 1;
+  let mut docs = vec![];
+  let mut idx = vec![0usize; keys.len()];
+  loop {
+    let mut es = vec![];
+    for (k, &x) in keys.iter().zip(idx.iter()) {
+      if x > 0 {
+        es.push((t(k), vals[x - 1].clone()));
+      }
+    }
+    docs.push(RV::Map(es.clone()));
+    docs.push(RV::Array(vec![RV::Map(es)]));
+    let mut p = 0;
+    loop {
+      if p == idx.len() {
+        return (tys, docs);
+      }
+      idx[p] += 1;
+      if idx[p] < n {
+        break;
+      }
+      idx[p] = 0;
+      p += 1;
+    }
+  }
 }
 
 fn struct_types(tier: Tier) -> Vec<Ty> {
@@ -602,6 +669,13 @@ pub fn run(tier: Tier) -> i32 {
     sweep(&mut run, &st, &lib, &sd, &ssd);
     run.set("struct_family", json!({"schemas": st.len(), "documents": sd.len()}));
   }
+  {
+    // keys that contain the path separator (and a nested one): the location is built from raw key text
+    let (st, sd) = slash_family();
+    let ssd: Vec<serde_json::Value> = sd.iter().map(crate::verdicts::rv_to_serde).collect();
+    sweep(&mut run, &st, &lib, &sd, &ssd);
+    run.set("slash_key_family", json!({"schemas": st.len(), "documents": sd.len()}));
+  }
   histories(&mut run, tier);
   quiet_stderr(|| kinds(&mut run)); // the string entry points print parser diagnostics to stderr
   run.evaluations = run.transitions;
@@ -610,7 +684,7 @@ pub fn run(tier: Tier) -> i32 {
      the real JSONValidator and CBORValidator reports (verdict + ordered (location, reason) list) are taken; transitions = the calls of the \
      histories explored from it: immediate repetition, the same call after every other document of the universe was validated (reverse sweep), \
      the string entry point for one document per schema. Oracle: Validation lists are non-empty, every JSON location is \"\" or resolves \
-     (serde_json pointer) in the document, all reports of a state are identical. Plus a fixed table of malformed schemas / malformed JSON / \
+     in the document (keys are matched raw, so a key may contain '/'; a slash-key family has keys \"a/b\", \"x/y/z\", \"/\"), all reports of a state are identical. Plus a fixed table of malformed schemas / malformed JSON / \
      truncated CBOR / non-conforming documents whose error kinds must be CDDLParsing / JSONParsing / CBORParsing / Validation. \
      Struct family: every map of 1-3 members (and two-alternative maps, and arrays of two-member maps) over a 13-member alphabet (int/any/tstr, \
      nested map and array values, choice values, tables, group reference) x the 343 objects over keys a,b,c with 6 nested/scalar values, judged the same way. \
